@@ -171,7 +171,10 @@ class EffectGraph:
             if (f.id in params_of(fi.fn) or r is None) and f.id not in ("op", "func", "callable", "qfunc", "qdispatch", "super", "getattr", "isinstance", "len", "type") and "__call__" in self.by_method:
                 import builtins
                 if not hasattr(builtins, f.id) and f.id in self._local_names(fi):
-                    return list(self.by_method["__call__"]), 1
+                    # callable objects passed around as values in this package are optimizers; a registrar object used as a decorator
+                    # at import time is not what a parameter holds
+                    cands = [c for c in self.by_method["__call__"] if c.cls is not None and any(b.name.endswith("Optimizer") for b in self.repo.mro(c.cls))]
+                    return list(cands or self.by_method["__call__"]), 1
             return [], 0
         if isinstance(f, ast.Attribute):
             base = f.value
